@@ -22,10 +22,9 @@ CLAIMS = {
  'C08': ("Lock-release lemma, zero annotation: for every function and closure of the library that performs a mutex operation (list recomputed from SSA on each run, 108 on the current tree) and for every control-flow path: "
          "no return and no loop back-edge is reached with a different lock state than on entry, no Unlock/RUnlock of an unheld mutex, no re-lock of a mutex the function already holds, Cond.Wait only with its Locker held.",
          "Not decided: that each blocking call returns within its context / close timeout / keepalive bound (timing and liveness are outside what function contracts express); callees without contract are assumed lock-balanced, which is exactly what this sweep proves for each of them. Assumed lock identities (typeassume) are listed in the evidence.", "6/C08"),
- 'C11': ("Contract proof of the enumeration tables of the converter layer: toResultCode/toResultCodeProto/toQoS/toQoSProto succeed exactly on the constants go/types reports for the wire and library enum types "
-         "(read from the type-checked packages on every run) and fail on every other int32/uint8 value; composition lemmas over the real bodies prove the two directions mutually inverse up to the documented wire aliasing (NORMAL_CLOSURE = SUCCEEDED = 0). "
-         "Exhaustive over the whole integer range by SMT, not by enumeration.",
-         "Only the 'mapping between result codes/QoS values and the wire enumerations is total in both directions' conjunct is decided. NOT decided: the field-by-field round trip of the message converters and the external gogo-protobuf / jsonpb marshalling (third-party, reflection); byte counts of the codecs.", "6/C11"),
+ 'C11': ("Contract proof of (a) the enumeration tables of the converter layer: toResultCode/toResultCodeProto/toQoS/toQoSProto succeed exactly on the constants go/types reports for the wire and library enum types (read on every run) and fail on every other value, and are mutually inverse up to the documented wire aliasing (NORMAL_CLOSURE = SUCCEEDED = 0); "
+         "(b) field-by-field round trips of the converter layer, proved as composition lemmas that symbolically execute the real WireToProto and ProtoToWire bodies one after the other, for Ping, Pong, Disconnect, UpstreamCall, UpstreamCallAck, DownstreamCall and for a DownstreamChunk in alias form (every alias value incl. 0); (c) pooled scratch buffers of the protobuf codec are reset before they return to the pool. Exhaustive over the whole value range by SMT, not by enumeration.",
+         "NOT decided: round trips of the remaining message types (collections, metadata variants, durations/times, uuids), the external gogo-protobuf / jsonpb marshalling and the agreement of the two encodings (third-party, reflection), byte counts of the codecs. Assumed: generated plain field getters return the field (zero for a nil receiver).", "6/C11"),
  'C17': ("Contract proof, for all parameter values, of NegotiationParams.Validate (returns nil exactly when encoding and compression type are known, level is absent or in 0-9, window bits absent or in 0-32; defaults the level to 6 only when a type is named; otherwise leaves the parameters untouched) "
          "and NegotiationParams.CompressConfig (Enable/Level/WindowBits/DisableContextTakeover are the stated function of the parameters, independent of the base config whenever type, level and window are named).",
          "NOT decided: the three carriers (URL query, key/value map, QUIC binary form) go through encoding/json reflection and are outside the verifier's reach; DialConfig.NegotiationParams takes the address of struct fields (interior pointers escape) and is outside the supported subset, so 'as every dialer produces' is an assumption here.", "6/C17"),
